@@ -47,7 +47,9 @@ CONSTANTS
     ExpandOrder,   \* "single" = the rule; "tokenv" / "envtok" = two passes (WRONG, see ExpandVal)
     CanonSel,      \* generated-line programs: canonicalisation settings put first (0 = none)
     ExecAlways,    \* sensitivity: "exec" is run although an earlier criterion failed (WRONG)
-    FinalShortCut  \* sensitivity: "final" only counts if the criteria before it hold (WRONG)
+    FinalShortCut, \* sensitivity: "final" only counts if the criteria before it hold (WRONG)
+    MaxLex,        \* lex: longest argument text
+    HashCutsWord   \* sensitivity: an unquoted '#' ends the line also in the middle of a word (WRONG)
 
 -----------------------------------------------------------------------------
 Strs(A, lo, hi) == UNION {[1..n -> A] : n \in lo..hi}
@@ -762,7 +764,103 @@ CanonOK(p) ==
         /\ \A j \in 1..Len(d.cr) : d.cr[j].c # "originalhost"
         /\ p.main[i] # 33
 
+(* ------------------------------------------------------------------------------------ *)
+(* THE LEXICAL LAYER of a configuration line (config.py SSHConfig.parse: line.strip(),  *)
+(* shlex.split in POSIX mode without comments, then the '=' spellings).  A line is the   *)
+(* keyword K followed by an argument text over a small alphabet; how it is cut into      *)
+(* words does not depend on the option, except that RemoteCommand / ProxyCommand take    *)
+(* the rest of the line verbatim.                                                        *)
+LexAlpha == {" ", "\t", "=", "x", "#", "\"", "'", "\\"}
+LexKinds == {"one", "list", "rest", "host"}   \* HostKeyAlias, SendEnv, RemoteCommand, Host
+WS == {" ", "\t"}
+Quotes == {"\"", "'"}
+RECURSIVE StripRW(_)
+StripRW(s) == IF s # <<>> /\ s[Len(s)] \in WS THEN StripRW(SubSeq(s, 1, Len(s) - 1)) ELSE s
+RECURSIVE StripLW(_)
+StripLW(s) == IF s # <<>> /\ Head(s) \in WS THEN StripLW(Tail(s)) ELSE s
+
+(* shlex in POSIX mode: st " " between words, "a" in a word, a quote character inside *)
+(* quotes, "e" after a backslash (esc = the state to return to); q: the word has had  *)
+(* a quoted part (so an empty word "" counts)                                           *)
+Emit1(z) == IF z.tok # <<>> \/ z.q THEN Append(z.out, z.tok) ELSE z.out
+RECURSIVE Shlex(_, _, _)
+Shlex(s, i, z) ==
+    IF i > Len(s)
+    THEN IF z.st \in Quotes \/ z.st = "e" THEN [err |-> TRUE, out |-> <<>>]   \* no closing quotation / nothing escaped
+         ELSE [err |-> FALSE, out |-> Emit1(z)]
+    ELSE LET ch == s[i] IN
+      IF z.st = " " THEN
+           IF ch \in WS THEN Shlex(s, i + 1, z)
+           ELSE IF ch = "#" /\ HashCutsWord THEN [err |-> FALSE, out |-> z.out]
+           ELSE IF ch = "\\" THEN Shlex(s, i + 1, [z EXCEPT !.st = "e", !.esc = "a"])
+           ELSE IF ch \in Quotes THEN Shlex(s, i + 1, [z EXCEPT !.st = ch, !.q = TRUE])
+           ELSE Shlex(s, i + 1, [z EXCEPT !.st = "a", !.tok = <<ch>>])
+      ELSE IF z.st = "a" THEN
+           IF ch \in WS THEN Shlex(s, i + 1, [z EXCEPT !.st = " ", !.out = Emit1(z), !.tok = <<>>, !.q = FALSE])
+           ELSE IF ch = "#" /\ HashCutsWord THEN [err |-> FALSE, out |-> Emit1(z)]
+           ELSE IF ch \in Quotes THEN Shlex(s, i + 1, [z EXCEPT !.st = ch, !.q = TRUE])
+           ELSE IF ch = "\\" THEN Shlex(s, i + 1, [z EXCEPT !.st = "e", !.esc = "a"])
+           ELSE Shlex(s, i + 1, [z EXCEPT !.tok = Append(@, ch)])
+      ELSE IF z.st \in Quotes THEN
+           IF ch = z.st THEN Shlex(s, i + 1, [z EXCEPT !.st = "a"])
+           ELSE IF ch = "\\" /\ z.st = "\"" THEN Shlex(s, i + 1, [z EXCEPT !.st = "e", !.esc = "\""])
+           ELSE Shlex(s, i + 1, [z EXCEPT !.tok = Append(@, ch)])
+      ELSE \* after a backslash; inside "..." only \\ and \" are escapes
+           LET keep == z.esc = "\"" /\ ch # "\\" /\ ch # "\""
+           IN  Shlex(s, i + 1, [z EXCEPT !.st = z.esc,
+                                         !.tok = @ \o (IF keep THEN <<"\\">> ELSE <<>>) \o <<ch>>])
+Words(line) == Shlex(line, 1, [st |-> " ", esc |-> "a", tok |-> <<>>, q |-> FALSE, out |-> <<>>])
+
+(* the '=' spellings: the first word may be Key=Value / Key= ; later words lose a leading *)
+(* '='; for Host / Match every word is cut at '='                                          *)
+EqAt(w) == IF \E i \in 1..Len(w) : w[i] = "="
+           THEN CHOOSE i \in 1..Len(w) : w[i] = "=" /\ \A j \in 1..(i - 1) : w[j] # "=" ELSE 0
+RECURSIVE EqWords(_, _, _, _, _)
+EqWords(ws, i, args, allow, cond) ==
+    IF i > Len(ws) THEN args
+    ELSE LET w == ws[i]
+             a2 == IF w # <<>> /\ w[1] = "=" THEN (IF Len(w) > 1 THEN Append(args, Tail(w)) ELSE args)
+                   ELSE IF ~allow THEN args \o SubSeq(ws, i, Len(ws))
+                   ELSE IF w # <<>> /\ w[Len(w)] = "=" THEN Append(args, SubSeq(w, 1, Len(w) - 1))
+                   ELSE IF EqAt(w) > 0 THEN Append(Append(args, SubSeq(w, 1, EqAt(w) - 1)),
+                                                    SubSeq(w, EqAt(w) + 1, Len(w)))
+                   ELSE Append(args, w)
+             stop == ~(w # <<>> /\ w[1] = "=") /\ ~allow
+         IN  IF stop THEN a2
+             ELSE EqWords(ws, i + 1, a2, IF i = 1 THEN (cond /\ a2 # <<>> /\ Head(a2) = <<"K">>) ELSE allow, cond)
+(* status "err" (ConfigParseError) / "ign" (another keyword: line ignored) / "ok" + the values *)
+LexLine(kind, s) ==
+    LET line == <<"K">> \o StripRW(s)
+        w    == Words(line)
+        all  == EqWords(w.out, 1, <<>>, TRUE, kind = "host")
+        args == IF kind = "rest" THEN <<StripLW(StripRW(Tail(line)))>> ELSE Tail(all)
+    IN  IF w.err THEN <<"err", <<>>>>
+        ELSE IF all = <<>> \/ Head(all) # <<"K">> THEN <<"ign", <<>>>>
+        ELSE IF args = <<>> THEN <<"err", <<>>>>                          \* missing value
+        ELSE IF kind = "one" /\ Len(args) > 1 THEN <<"err", <<>>>>        \* extra data
+        ELSE <<"ok", args>>
+
+(* reference for the plain fragment: without quotes, backslashes and '=', the words are *)
+(* the maximal runs of non-blank characters, '#' included                               *)
+RECURSIVE SplitWS(_, _)
+SplitWS(s, cur) ==
+    IF s = <<>> THEN (IF cur = <<>> THEN <<>> ELSE <<cur>>)
+    ELSE IF Head(s) \in WS THEN (IF cur = <<>> THEN <<>> ELSE <<cur>>) \o SplitWS(Tail(s), <<>>)
+    ELSE SplitWS(Tail(s), Append(cur, Head(s)))
+LexPlain(s) == \A i \in 1..Len(s) : s[i] \notin {"\"", "'", "\\", "="}
+HashIsAWordCharacter ==
+    (Mode = "lex" /\ LexPlain(kase.s)) => Words(<<"K">> \o kase.s).out = SplitWS(<<"K">> \o kase.s, <<>>)
+QuotesMustBalance ==
+    (Mode = "lex" /\ \A i \in 1..Len(kase.s) : kase.s[i] \notin {"'", "\\"}) =>
+        (Cardinality({i \in 1..Len(kase.s) : kase.s[i] = "\""}) % 2 = 1) = Words(<<"K">> \o kase.s).err
+RECURSIVE LexHash(_)
+LexHash(s) == IF s = <<>> THEN 5 ELSE (LexHash(Tail(s)) * 31 + Len(Head(s)) + (IF Head(s) = "#" THEN 7 ELSE 0)
+                                        + (IF Head(s) = "x" THEN 3 ELSE 0)) % 100003
+
 Init ==
+    \/ /\ Mode = "lex"
+       /\ kase \in [kind : LexKinds, s : Strs(LexAlpha, 0, MaxLex)]
+       /\ (Len(kase.s) < MaxLex \/ (LexHash(kase.s) + Len(kase.kind)) % SampleMod = SampleRem)
     \/ /\ Mode = "cli"
        /\ kase \in [p : Progs, t : TgtSel]
        /\ WellFormed(kase.p) /\ Keep(kase.p)
@@ -950,7 +1048,9 @@ EmitSrv ==
     IN  PrintT(<<"srv", kase.p.main, kase.p.a, kase.p.b, kase.t, B2N(Unsafe(u)), r, alts,
                  RawAkf(kase.p, u), kase.p.x,
                  Pass(kase.p, SrvCx(u, Rule), St0(<<>>)).t>>)
-EmitCase == Emit => IF Mode = "cli" THEN EmitCli ELSE EmitSrv
+EmitLex == LET r == LexLine(kase.kind, kase.s)
+           IN  PrintT(<<"lex", kase.kind, kase.s, r[1], r[2]>>)
+EmitCase == Emit => IF Mode = "cli" THEN EmitCli ELSE IF Mode = "lex" THEN EmitLex ELSE EmitSrv
 
 MenuDump == <<"menu",
               [i \in 1..NDir |-> DirText(DirMenu[i])],
